@@ -239,6 +239,54 @@ static void reset(void) { NLOG = 0; SEQ = 0; box_drops = arc_clones = arc_drops 
             A('        for (int i = 0; i < NLOG && i < 4; i++) printf(" [root=%d trait=%d slot=%d cont_ok=%d args_ok=%d seq=%d]", LOG[i].root, LOG[i].trait, LOG[i].slot, LOG[i].cont == (const void *)&obj.container || LOG[i].cont == (const void *)PAYLOAD, LOG[i].args_ok, LOG[i].seq);')
             A('        printf(" ret_ok=%%d box_drops=%%d arc_clones=%%d arc_drops=%%d clone_seq=%%d drop_first=%%d drop_last=%%d box_seq=%%d\\n", (int)(%s), box_drops, arc_clones, arc_drops, arc_clone_seq, arc_drop_seq_first, arc_drop_seq_last, box_drop_seq);' % retcheck)
             A("    }")
+    for line in helper_tests(header_text):
+        A(line)
     A('    printf("DONE calls=%d\\n");' % ncalls)
     A("    return 0;\n}")
     return "\n".join(L) + "\n", wrappers
+
+
+def helper_tests(text):
+    """the callback / iterator helper macros the processed C header offers to its users, driven the way the
+    Rust side drives them: func(context, item) until it returns false; next(state, &out) until it returns non-zero"""
+    out = []
+    for ty, mk, eq in (("Pair", "(struct Pair){(uint8_t)(k), 0x9900 + (k)}", "got[k].a == (uint8_t)k && got[k].b == 0x9900 + (uint64_t)k"),
+                       ("KeyValue", "(struct KeyValue){{(const uint8_t *)(uintptr_t)(0x100 + (k)), (k)}, 7 * (k)}", "got[k]._0.len == (uintptr_t)k && got[k]._1 == 7 * (uintptr_t)k")):
+        if "cb_collect_dynamic_%s(" % ty not in text:
+            continue
+        out.append("    { /* COLLECT_CB / COLLECT_CB_INTO_ARR / COUNT_CB for %s */" % ty)
+        out.append("        static const int NS[] = {0, 1, 2, 63, 64, 65, 127, 128, 129, 1000};")
+        out.append("        for (unsigned t = 0; t < sizeof NS / sizeof *NS; t++) {")
+        out.append("            int n = NS[t], ok = 1, refused = 0;")
+        out.append("            COLLECT_CB(%s, cb);" % ty)
+        out.append("            for (int k = 0; k < n; k++) { if (!cb.func(cb.context, %s)) { refused++; } }" % mk)
+        out.append("            struct %s *got = *cb_data;" % ty)
+        out.append("            if (refused || cb_base.size != (size_t)n || cb_base.capacity < cb_base.size) ok = 0;")
+        out.append("            for (int k = 0; ok && k < n; k++) { if (!(%s)) ok = 0; }" % eq)
+        out.append('            printf("HELPER name=COLLECT_CB ty=%s n=%%d ok=%%d size=%%zu refused=%%d\\n", n, ok, cb_base.size, refused);' % ty)
+        out.append("            free(cb_base.buf);")
+        out.append("            COUNT_CB(%s, cnt);" % ty)
+        out.append("            int cont = 1; for (int k = 0; k < n; k++) { cont = cont && cnt.func(cnt.context, %s); }" % mk)
+        out.append('            printf("HELPER name=COUNT_CB ty=%s n=%%d ok=%%d\\n", n, (int)(cont && cnt_count == (size_t)n));' % ty)
+        out.append("        }")
+        out.append("        for (int n = 0; n <= 8; n++) {")
+        out.append("            struct %s arr[5]; memset(arr, 0, sizeof arr);" % ty)
+        out.append("            COLLECT_CB_INTO_ARR(%s, cb, arr);" % ty)
+        out.append("            int offered = 0; for (int k = 0; k < n; k++) { offered++; if (!cb.func(cb.context, %s)) break; }" % mk)
+        out.append("            struct %s *got = arr; int want = n < 5 ? n : 5; int ok = cb_base.size == (size_t)want && offered == want;" % ty)
+        out.append("            for (int k = 0; ok && k < want; k++) { if (!(%s)) ok = 0; }" % eq)
+        out.append('            printf("HELPER name=COLLECT_CB_INTO_ARR ty=%s n=%%d ok=%%d size=%%zu offered=%%d\\n", n, ok, cb_base.size, offered);' % ty)
+        out.append("        }")
+        out.append("    }")
+    if "struct CIterator_i32" in text and "buf_iter_next" in text:
+        out.append("    { /* BUF_ITER_SPEC over int32_t */")
+        out.append("        for (int n = 0; n <= 6; n++) {")
+        out.append("            int32_t data[7] = {10, -11, 12, -13, 14, -15, 16};")
+        out.append("            BUF_ITER_SPEC(i32, int32_t, it, data, n);   /* the form examples/c-user-bin uses for primitive element types */")
+        out.append("            int ok = 1, k = 0; int32_t o = 0;")
+        out.append("            while (it.func(it.iter, &o) == 0) { if (k >= n || o != data[k]) ok = 0; k++; if (k > 10) break; }")
+        out.append("            if (k != n || it.func(it.iter, &o) == 0) ok = 0;")
+        out.append('            printf("HELPER name=BUF_ITER ty=i32 n=%d ok=%d\\n", n, ok);')
+        out.append("        }")
+        out.append("    }")
+    return out
